@@ -308,3 +308,132 @@ Proof.
   - destruct cons as [c|]; cbn [fam_exceeds]; auto. destruct (c_nonlinear cfg) as [[lo up]|] eqn:E; cbn [fam_exceeds]; auto.
     apply zipw3_inside; auto. intros i v l u. eapply Hn; reflexivity.
 Qed.
+
+(* ---- feasibility for every tolerance / info combination ------------------------------------------- *)
+Lemma feasible_total tol ci :
+  feasible tol ci = true <->
+  match tol, ci with
+  | Some t, Some c => fam_within t (ci_bound c) /\ fam_within t (ci_linear c) /\ fam_within t (ci_nonlinear c)
+  | _, _ => True
+  end.
+Proof.
+  destruct tol as [t|], ci as [c|]; try (split; [trivial | intros _; try apply feasible_no_tolerance; apply feasible_no_info]).
+  apply feasible_iff.
+Qed.
+
+(* ---- which result the trackers retain --------------------------------------------------------------- *)
+Lemma last_ok_none tol items : forall i,
+  last_ok tol items i = None <-> (forall k it, nth_error items k = Some it -> ti_ok tol it = false).
+Proof.
+  induction items as [|a r IH]; intros i; cbn [last_ok].
+  - split; [intros _ k it H; destruct k; discriminate | reflexivity].
+  - split.
+    + intros H k it Hk. destruct (last_ok tol r (S i)) eqn:E; [discriminate|].
+      destruct (ti_ok tol a) eqn:Ea; [discriminate|].
+      destruct k as [|k]; cbn in Hk; [injection Hk as <-; exact Ea | exact (proj1 (IH (S i)) E k it Hk)].
+    + intros H. rewrite (proj2 (IH (S i)) (fun k it Hk => H (S k) it Hk)). rewrite (H 0%nat a eq_refl). reflexivity.
+Qed.
+
+Lemma last_ok_some tol items : forall i j,
+  last_ok tol items i = Some j ->
+  exists k it, j = (i + k)%nat /\ nth_error items k = Some it /\ ti_ok tol it = true /\
+    forall k' it', (k < k')%nat -> nth_error items k' = Some it' -> ti_ok tol it' = false.
+Proof.
+  induction items as [|a r IH]; intros i j; cbn [last_ok]; [discriminate|].
+  destruct (last_ok tol r (S i)) as [j'|] eqn:E.
+  - intros H; injection H as <-. destruct (IH (S i) j' E) as (k & it & -> & Hk & Hok & Hlater).
+    exists (S k), it. repeat split; [lia | exact Hk | exact Hok |].
+    intros k' it' Hlt Hk'. destruct k' as [|k']; [lia|]. apply (Hlater k' it'); [lia | exact Hk'].
+  - destruct (ti_ok tol a) eqn:Ea; [|discriminate]. intros H; injection H as <-.
+    exists 0%nat, a. repeat split; [lia | exact Ea |].
+    intros k' it' Hlt Hk'. destruct k' as [|k']; [lia|]. exact (proj1 (last_ok_none tol r (S i)) E k' it' Hk').
+Qed.
+
+Lemma best_ok_app tol l x : forall i cur,
+  best_ok tol (l ++ [x]) i cur = best_step tol (i + length l) x (best_ok tol l i cur).
+Proof.
+  induction l as [|a l IH]; intros i cur; cbn [app best_ok length].
+  - rewrite Nat.add_0_r. reflexivity.
+  - rewrite IH. rewrite Nat.add_succ_r. reflexivity.
+Qed.
+
+(* the specification of the "best" choice among the delivered items: an admissible item (function values present,
+   every violation within the tolerance) with a numeric objective, of minimal objective, the first such *)
+Definition best_spec (tol : option Q) (items : list titem) (res : option (nat * Q)) : Prop :=
+  match res with
+  | None => forall k it, nth_error items k = Some it -> ti_ok tol it = true -> ti_obj it = None
+  | Some (j, o) =>
+      (exists it, nth_error items j = Some it /\ ti_ok tol it = true /\ ti_obj it = Some o) /\
+      (forall k it' o', nth_error items k = Some it' -> ti_ok tol it' = true -> ti_obj it' = Some o' ->
+                        o <= o' /\ ((k < j)%nat -> o < o'))
+  end.
+
+Lemma nth_error_snoc {A} (l : list A) x k y : nth_error (l ++ [x]) k = Some y ->
+  ((k < length l)%nat /\ nth_error l k = Some y) \/ (k = length l /\ y = x).
+Proof.
+  intros H. destruct (Nat.lt_ge_cases k (length l)) as [Hlt|Hge].
+  - left. split; [exact Hlt|]. rewrite nth_error_app1 in H by exact Hlt. exact H.
+  - right. rewrite nth_error_app2 in H by exact Hge.
+    destruct (k - length l)%nat as [|d] eqn:Ed; cbn in H.
+    + injection H as <-. split; [lia | reflexivity].
+    + destruct d; discriminate.
+Qed.
+
+Lemma best_ok_spec tol items : best_spec tol items (best_ok tol items 0 None).
+Proof.
+  induction items as [|x l IH] using rev_ind.
+  - cbn. intros k it H; destruct k; discriminate.
+  - rewrite best_ok_app. cbn [Nat.add]. set (res := best_ok tol l 0 None) in *.
+    unfold best_step. destruct (ti_ok tol x) eqn:Eok; [destruct (ti_obj x) as [ox|] eqn:Eobj|].
+    + (* admissible, numeric objective *)
+      destruct res as [[j o]|]; cbn [improves].
+      * destruct IH as ((it & Hj & Hjok & Hjobj) & Hmin).
+        assert (Hjl : (j < length l)%nat) by (apply nth_error_Some; rewrite Hj; discriminate).
+        destruct (Qltb ox o) eqn:Elt.
+        -- apply Qltb_lt in Elt. cbn. split.
+           ++ exists x. rewrite nth_error_app2 by lia. rewrite Nat.sub_diag. cbn. auto.
+           ++ intros k it' o' Hk Hok Hobj. destruct (nth_error_snoc _ _ _ _ Hk) as [(Hlt & Hk')|(-> & ->)].
+              ** destruct (Hmin k it' o' Hk' Hok Hobj) as (Hle & _). split; [lra | intros _; lra].
+              ** rewrite Eobj in Hobj; injection Hobj as <-. split; [lra | lia].
+        -- apply Qltb_nlt in Elt. cbn. split.
+           ++ exists it. rewrite nth_error_app1 by exact Hjl. auto.
+           ++ intros k it' o' Hk Hok Hobj. destruct (nth_error_snoc _ _ _ _ Hk) as [(Hlt & Hk')|(-> & ->)].
+              ** exact (Hmin k it' o' Hk' Hok Hobj).
+              ** rewrite Eobj in Hobj; injection Hobj as <-. split; [lra | lia].
+      * cbn. cbn in IH. split.
+        -- exists x. rewrite nth_error_app2 by lia. rewrite Nat.sub_diag. cbn. auto.
+        -- intros k it' o' Hk Hok Hobj. destruct (nth_error_snoc _ _ _ _ Hk) as [(Hlt & Hk')|(-> & ->)].
+           ++ rewrite (IH k it' Hk' Hok) in Hobj. discriminate.
+           ++ rewrite Eobj in Hobj; injection Hobj as <-. split; [lra | lia].
+    + (* admissible, objective is NaN: never chosen *)
+      destruct res as [[j o]|]; cbn in IH |- *.
+      * destruct IH as ((it & Hj & Hjok & Hjobj) & Hmin).
+        assert (Hjl : (j < length l)%nat) by (apply nth_error_Some; rewrite Hj; discriminate). split.
+        -- exists it. rewrite nth_error_app1 by exact Hjl. auto.
+        -- intros k it' o' Hk Hok Hobj. destruct (nth_error_snoc _ _ _ _ Hk) as [(Hlt & Hk')|(-> & ->)].
+           ++ exact (Hmin k it' o' Hk' Hok Hobj).
+           ++ rewrite Eobj in Hobj. discriminate.
+      * intros k it Hk Hok. destruct (nth_error_snoc _ _ _ _ Hk) as [(Hlt & Hk')|(-> & ->)]; [exact (IH k it Hk' Hok) | exact Eobj].
+    + (* not admissible: never chosen *)
+      destruct res as [[j o]|]; cbn in IH |- *.
+      * destruct IH as ((it & Hj & Hjok & Hjobj) & Hmin).
+        assert (Hjl : (j < length l)%nat) by (apply nth_error_Some; rewrite Hj; discriminate). split.
+        -- exists it. rewrite nth_error_app1 by exact Hjl. auto.
+        -- intros k it' o' Hk Hok Hobj. destruct (nth_error_snoc _ _ _ _ Hk) as [(Hlt & Hk')|(-> & ->)].
+           ++ exact (Hmin k it' o' Hk' Hok Hobj).
+           ++ rewrite Eok in Hok. discriminate.
+      * intros k it Hk Hok. destruct (nth_error_snoc _ _ _ _ Hk) as [(Hlt & Hk')|(-> & ->)]; [exact (IH k it Hk' Hok) |].
+        rewrite Eok in Hok. discriminate.
+Qed.
+
+(* a retained result is admissible: function values present and every reported violation within the tolerance *)
+Lemma ti_ok_within t it : ti_ok (Some t) it = true ->
+  ti_fun it = true /\
+  match ti_info it with
+  | Some c => fam_within t (ci_bound c) /\ fam_within t (ci_linear c) /\ fam_within t (ci_nonlinear c)
+  | None => True
+  end.
+Proof.
+  unfold ti_ok. intros H. apply andb_true_iff in H as (Hf & Hfe). split; [exact Hf|].
+  destruct (ti_info it) as [c|]; [apply feasible_iff; exact Hfe | exact I].
+Qed.
